@@ -55,6 +55,11 @@ pub struct Ctx {
 }
 
 thread_local! {
+    /// id of the value currently being handed to Cc::new (it is dropped by unwinding if the
+    /// automatic collection started by Cc::new panics)
+    pub static PENDING_NEW: Cell<u32> = const { Cell::new(0) };
+    /// the Weak provided to the running new_cyclic closure
+    pub static PROVIDED: Cell<*const ()> = const { Cell::new(std::ptr::null()) };
     static WORLD: Cell<*mut ()> = const { Cell::new(std::ptr::null_mut()) };
     static CTX: RefCell<Vec<Ctx>> = const { RefCell::new(Vec::new()) };
 }
@@ -91,6 +96,9 @@ pub fn top_ctx() -> Option<Ctx> {
 pub fn ctx_depth() -> usize {
     CTX.with(|c| c.borrow().len())
 }
+fn ctx_ptr_kind(id: u32) -> Option<CbKind> {
+    CTX.with(|c| c.borrow().iter().rev().find(|x| x.id == id).map(|x| x.kind))
+}
 fn ctx_ptr(id: u32) -> Option<*const ()> {
     CTX.with(|c| c.borrow().iter().rev().find(|x| x.id == id).map(|x| x.ptr))
 }
@@ -99,7 +107,9 @@ fn ctx_ptr(id: u32) -> Option<*const ()> {
 /// of a running callback. The reference must not be kept across crate calls.
 unsafe fn node_ref<'a, P: Pad>(w: &'a World<P>, a: u32) -> Option<&'a Node<P>> {
     if let Some(p) = ctx_ptr(a) {
-        return Some(&*(p as *const Node<P>));
+        if !p.is_null() {
+            return Some(&*(p as *const Node<P>));
+        }
     }
     if let Some(v) = w.roots.get(&a) {
         if let Some(cc) = v.first() {
@@ -313,6 +323,14 @@ fn run_op<P: Pad>(call: &Value, body: impl FnOnce() -> Value) {
     let op = g_str(call, "op").to_string();
     let mut call_ev = call.clone();
     call_ev["x"] = json!(state::executions_count().map(|v| v as i64).unwrap_or(-1));
+    if op == "new" || op == "newcyc" || op == "register" {
+        call_ev["by"] = json!(state::allocated_bytes().map(|v| v as i64).unwrap_or(-1));
+        call_ev["bf"] = json!(state::buffered_objects_count().map(|v| v as i64).unwrap_or(-1));
+        #[cfg(feature = "auto")]
+        {
+            call_ev["thr"] = json!(rust_cc::verif_hooks::bytes_threshold().map(|v| v as i64).unwrap_or(-1));
+        }
+    }
     emit(call_ev);
     let depth = DEPTH.with(|d| d.get());
     DEPTH.with(|d| d.set(depth + 1));
@@ -373,7 +391,11 @@ pub fn valid<P: Pad>(call: &Value) -> bool {
             s.get(i.wrapping_sub(1)).map(|s| s.inner.is_some())
         };
         match op {
-            "new" | "collect" | "setcfg" | "newcyc" => true,
+            "new" | "collect" | "setcfg" => true,
+            #[cfg(feature = "weak")]
+            "newcyc" => true,
+            #[cfg(feature = "weak")]
+            "savew" | "wprobe" => !PROVIDED.with(|c| c.get()).is_null() && ctx_ptr_kind(o) == Some(CbKind::Closure),
             "clone" | "drop" | "mark" | "unwrap" | "fagain" | "downgrade" => has_root(o),
             "clonef" | "clear" => slot_state(a, k, i) == Some(true),
             "set" => has_root(b) && node_ok(a) && slot_state(a, k, i) == Some(false),
@@ -411,7 +433,10 @@ pub fn exec<P: Pad>(call: &Value) {
                 }
             });
             run_op::<P>(call, move || {
+                let prev = PENDING_NEW.with(|c| c.replace(o));
+                let _p = Restore(&PENDING_NEW, prev);
                 let cc = Cc::new(node);
+                PENDING_NEW.with(|c| c.set(0));
                 with_world::<P, _>(|w| w.roots.entry(o).or_default().push(cc));
                 json!({})
             });
@@ -539,6 +564,44 @@ pub fn exec<P: Pad>(call: &Value) {
             } else {
                 f();
                 json!({"res": "ok"})
+            }
+        }),
+        #[cfg(feature = "weak")]
+        "newcyc" => {
+            let (ns, np, nw) = with_world::<P, _>(|w| (w.ns, w.np, w.nw));
+            let prev = CUR_NEW.with(|c| c.replace(o));
+            let _r = Restore(&CUR_NEW, prev);
+            let prevm = CUR_META.with(|c| c.replace(o));
+            let _rm = Restore(&CUR_META, prevm);
+            with_world::<P, _>(|w| {
+                w.created += 1;
+                if o >= w.next_id {
+                    w.next_id = o + 1;
+                }
+            });
+            run_op::<P>(call, move || {
+                let cc = Cc::new_cyclic(|wk: &weak::Weak<Node<P>>| crate::node::closure_body::<P>(o, ns, np, nw, wk));
+                with_world::<P, _>(|w| w.roots.entry(o).or_default().push(cc));
+                json!({})
+            });
+        }
+        #[cfg(feature = "weak")]
+        "savew" => run_op::<P>(call, || {
+            let p = PROVIDED.with(|c| c.get()) as *const weak::Weak<Node<P>>;
+            let c = unsafe { (*p).clone() };
+            with_world::<P, _>(|w| w.wroots.entry(o).or_default().push(c));
+            json!({})
+        }),
+        #[cfg(feature = "weak")]
+        "wprobe" => run_op::<P>(call, || {
+            let p = PROVIDED.with(|c| c.get()) as *const weak::Weak<Node<P>>;
+            let (up, sc) = unsafe { ((*p).upgrade(), (*p).strong_count()) };
+            match up {
+                Some(cc) => {
+                    with_world::<P, _>(|w| w.roots.entry(o).or_default().push(cc));
+                    json!({"res": "some", "wsc": sc})
+                }
+                None => json!({"res": "none", "wsc": sc}),
             }
         }),
         #[cfg(feature = "weak")]
